@@ -15,6 +15,7 @@ is compared with the textbook precedence-climbing tree, and the stream must be c
 
 from __future__ import annotations
 
+import ast
 import itertools
 
 from .core import AnalysisError
@@ -101,28 +102,59 @@ def check_pratt(repo: Repo, where: str, max_ops: int = 3) -> tuple[int, list[tup
             raise AnalysisError(f"anchor vanished: class {need}")
     bad: list[tuple[str, str]] = []
     n = 0
+    serial = itertools.count()
+
+    def declare(prec: dict, base: str = "PrattParser") -> str:
+        """A parser class as users write one: a subclass whose operator tables are *class* attributes (a fresh
+        class per model point: what one class computed can only reach another through inheritance)."""
+        name = f"Model{next(serial)}"
+        cm.classes[name] = ast.parse(f"class {name}({base}):\n    pass").body[0]  # type: ignore[assignment]
+        cm.class_rel[name] = cm.class_rel.get("PrattParser", cm.rel)
+        cm.env[name] = cm._ctor(name)  # noqa: SLF001
+        cm.set_class_attr(name, "PREFIX_OPS", {o: prec[o] for o in PRE if o in prec})
+        cm.set_class_attr(name, "POSTFIX_OPS", {o: prec[o] for o in POST if o in prec})
+        cm.set_class_attr(name, "INFIX_OPS", {o: (prec[o], RIGHT[o]) for o in INF if o in prec})
+        return name
+
+    def instance(cname: str) -> Obj:
+        parser = cm.new(cname)
+        parser.__dict__.update(
+            parse_primary=lambda pair: ("v", pair.name), parse_prefix=lambda op, rhs: (op.name, rhs),
+            parse_postfix=lambda lhs, op: (lhs, op.name), parse_infix=lambda lhs, op, rhs: (lhs, op.name, rhs),
+        )
+        return parser
+
+    def run(parser: Obj, toks: list[str], prec: dict, note: str = "") -> None:
+        pairs = [Obj("Pair", name=t, children=[], start=i, end=i + 1) for i, t in enumerate(toks)]
+        stream = cm.new("Stream", pairs)
+        want, want_pos = reference(toks, prec)
+        desc = f"{' '.join(toks)}  with " + ", ".join(f"{o}={prec[o]}{'R' if RIGHT.get(o) else ''}" for o in PRE + POST + INF if o in toks) + note
+        try:
+            got = cm.call(parser, "parse_expr", stream)
+        except ModelRaise as err:
+            bad.append(("parse_expr raises on a well-formed stream", f"{desc}: {err}"))
+            return
+        if got != want:
+            bad.append(("the tree built is not the one the declared precedences and associativities denote" + (" (after another class of the hierarchy has parsed)" if note else ""), f"{desc}: builds {got}, denoted {want}"))
+        elif stream.__dict__.get("pos") != want_pos:
+            bad.append(("the stream is not consumed as far as the expression reaches", f"{desc}: stops at {stream.__dict__.get('pos')} of {len(toks)}"))
+
     for toks in streams(max_ops):
         ops_in = sorted({t for t in toks if t in PRE + POST + INF})
         for prec in tables(ops_in):
-            parser = Obj(("PrattParser",))
-            parser.__dict__.update(
-                PREFIX_OPS={o: prec[o] for o in PRE}, POSTFIX_OPS={o: prec[o] for o in POST}, INFIX_OPS={o: (prec[o], RIGHT[o]) for o in INF},
-                LEFT_ASSOC=False, RIGHT_ASSOC=True,
-                parse_primary=lambda pair: ("v", pair.name), parse_prefix=lambda op, rhs: (op.name, rhs),
-                parse_postfix=lambda lhs, op: (lhs, op.name), parse_infix=lambda lhs, op, rhs: (lhs, op.name, rhs),
-            )
+            full = {**{o: 1 for o in PRE + POST + INF}, **prec}
             n += 1
-            pairs = [Obj("Pair", name=t, children=[], start=i, end=i + 1) for i, t in enumerate(toks)]
-            stream = cm.new("Stream", pairs)
-            want, want_pos = reference(toks, prec)
-            desc = f"{' '.join(toks)}  with " + ", ".join(f"{o}={prec[o]}{'R' if RIGHT.get(o) else ''}" for o in PRE + POST + INF if o in toks)
-            try:
-                got = cm.call(parser, "parse_expr", stream)
-            except ModelRaise as err:
-                bad.append(("parse_expr raises on a well-formed stream", f"{desc}: {err}"))
-                continue
-            if got != want:
-                bad.append(("the tree built is not the one the declared precedences and associativities denote", f"{desc}: builds {got}, denoted {want}"))
-            elif stream.__dict__.get("pos") != want_pos:
-                bad.append(("the stream is not consumed as far as the expression reaches", f"{desc}: stops at {stream.__dict__.get('pos')} of {len(toks)}"))
+            run(instance(declare(full)), toks, full)
+    # tables are declared per class: a subclass that overrides them is honoured whatever its base class (or another
+    # instance) has parsed before, and the base class is not disturbed by the subclass
+    hist = [(["x0", "a", "x1", "b", "x2"], {"a": 1, "b": 2}, {"a": 2, "b": 1}), (["n1", "x0", "a", "x1"], {"n1": 1, "a": 2}, {"n1": 2, "a": 1}),
+            (["x0", "a", "x1", "f1"], {"a": 1, "f1": 2}, {"a": 2, "f1": 1}), (["x0", "c", "x1", "c", "x2"], {"c": 1}, {"c": 2})]
+    for toks, p1, p2 in hist:
+        f1, f2 = {**{o: 3 for o in PRE + POST + INF}, **p1}, {**{o: 3 for o in PRE + POST + INF}, **p2}
+        base = declare(f1)
+        sub = declare(f2, base)
+        n += 3
+        run(instance(base), toks, f1)
+        run(instance(sub), toks, f2, "; declared on a subclass of a class that has just parsed with other tables")
+        run(instance(base), toks, f1, "; after a subclass with other tables has parsed")
     return n, bad
